@@ -134,8 +134,10 @@ class Val:
 
 
 class Gen:
-    def __init__(self, rng, stretch=True, big=None, long_in_container=False):
+    def __init__(self, rng, stretch=True, big=None, long_in_container=False, long_all=False, force_char=False):
         self.rng = rng
+        self.long_all = long_all        # EVERY std::string inside a composite is longer than the SSO buffer (its copy allocates)
+        self.force_char = force_char    # top-level 1-byte arithmetic = plain char with a non-printable value
         self.long_in_container = long_in_container   # make the first std::string inside a container longer than the SSO buffer
         self.stretch = stretch
         self.big = big          # number of bytes of the one oversized string of this case (or None)
@@ -188,6 +190,8 @@ class Gen:
             choices += [("bool", None), ("char", None)]
         if w == 1 and in_container and not key:
             choices.append(("char", None))
+        if w == 1 and self.force_char and not in_container:
+            return Val("char", r.choice(["'\\001'", "'\\007'", "'\\033'", "'\\177'", "'\\303'", "'\\377'", "'\\t'"]))
         fk = ("arith", w, in_container, key)
         if fk not in self.fix:
             self.fix[fk] = r.choice(choices)
@@ -244,7 +248,7 @@ class Gen:
                 e = f"const_cast<char*>({e})"
             return Val(ct, e, adj=len(bs) - len(v["b"]))
         if k in ("str", "sv", "sref"):
-            if k == "str" and in_container and self.long_in_container and 1 in v:
+            if k == "str" and in_container and (self.long_in_container or self.long_all) and 1 in v:
                 self.long_in_container = False
                 m = r.choice([16, 17, 24, 40])
                 bs = bytes(bb for b in v for bb in (b"\0" if b == 0 else self.nonnul(m)))
@@ -495,7 +499,7 @@ class Gen:
 
 
 # ----------------------------------------------------------------------------------------- cases
-def build_case(cid, beh, rng, consts, fresh=0, big=None, origin=""):
+def build_case(cid, beh, rng, consts, fresh=0, big=None, origin="", opts=None):
     """beh: exported behaviour (list of steps). Returns a case dict (with C++ text) or raises Unrealisable."""
     stmts = []
     for step in beh:
@@ -512,13 +516,18 @@ def build_case(cid, beh, rng, consts, fresh=0, big=None, origin=""):
     body = []
     for si, s in enumerate(stmts):
         st = s["step"]
-        g = Gen(rng, stretch=True, big=big if si == len(stmts) - 1 else None, long_in_container=rng.random() < 0.6)
+        o = opts or {}
+        g = Gen(rng, stretch=o.get("stretch", True), big=big if si == len(stmts) - 1 else None,
+                long_in_container=rng.random() < 0.6, long_all=o.get("long_all", False), force_char=o.get("force_char", False))
         args = st["args"]
         tops = [g.top(a["ty"], a["val"], f"a{i}") for i, a in enumerate(args)]
         if g.nalt_bits > 4:
             raise Unrealisable("too many unordered containers with two elements")
         kinds = [a["ty"]["k"] for a in args]
-        has_str = int(any(k in STRINGISH for k in kinds))
+        # the format literals generated here are printable, so only arguments can put a non-printable byte into the text:
+        # the message must ALWAYS equal the sanitised call-site text (the documented "only when an argument is a string"
+        # exception of the sanitiser has no observable effect on these statements)
+        has_str = 1
         has_sref = any("sref" in kinds_of(a["ty"]) for a in args)
         dyn = bool(st["dyn"])
         if dyn:
